@@ -471,7 +471,10 @@ func (m *Monitors) onInvoke(inv Invocation) {
 	m.opInvocations = append(m.opInvocations, inv)
 	w.Invocations = append(w.Invocations, inv)
 	prs := int(inv.Persisted.RunState)
-	failing := strings.HasPrefix(inv.Outcome, "e") || inv.Outcome == "x" || inv.Outcome == "ze"
+	failing := strings.HasPrefix(inv.Outcome, "e") || inv.Outcome == "x" || inv.Outcome == "ze" || strings.HasPrefix(inv.Outcome, "l:")
+	if strings.HasPrefix(inv.Outcome, "l:") {
+		m.NonTrivial["role-lost-inside-"+inv.Kind] = true
+	}
 	switch inv.Kind {
 	case "step", "callback", "timeout", "timer":
 		if isStopped(prs) {
@@ -756,6 +759,17 @@ func (m *Monitors) pauseMissedOnAck() {}
 
 func (m *Monitors) onClose(name string) {
 	if idx, ok := m.inflight[name]; ok {
+		// C04: "older announcements are acknowledged": a delivery whose announcement is older than the record the store answered with
+		// must end in an acknowledgement when nothing was injected and no user function ran
+		w := m.w
+		tok := w.sim.Tok[name]
+		if v, seen := m.readVer[name]; seen && (strings.HasPrefix(tok, "st:") || strings.HasPrefix(tok, "ins:")) && idx < len(w.log) &&
+			!m.opFailed && !m.opLeaseLost && len(w.env.Faults) == 0 && len(m.opInvocations) == 0 && !m.stopping && !m.stopped {
+			if evv, err := strconv.Atoi(w.log[idx].Headers[workflow.HeaderRecordVersion]); err == nil && uint(evv) < v {
+				m.violate("C04", "older-event-acknowledged", "older-announcement-not-acknowledged:"+strings.SplitN(tok, ":", 2)[0],
+					fmt.Sprintf("%s received e%d carrying version %d, the store answered with version %d (the announcement is out of date), nothing was injected and no function ran, yet the consumer gave up without acknowledging: it will be handed the same stale event again and again", tok, idx, evv, v))
+			}
+		}
 		m.unacked[name] = idx
 		delete(m.inflight, name)
 	}
@@ -889,6 +903,15 @@ func (m *Monitors) pollerNext() {
 func (m *Monitors) onAwait(role string) {
 	m.awaits[role]++
 	w := m.w
+	// C07: "the receiver is closed" before the process goes back for its role
+	if n := w.opens[role] - w.closes[role]; n > 0 && !m.stopping && !m.stopped {
+		tok := role
+		if w.sim != nil && w.sim.Tok[role] != "" {
+			tok = w.sim.Tok[role]
+		}
+		m.violate("C07", "receiver-closed", "receiver-left-open:"+strings.SplitN(tok, ":", 2)[0],
+			fmt.Sprintf("process %s is back at the role scheduler with %d receiver(s) it opened still not closed (last failure: %q)", tok, n, m.lastFailure[role]))
+	}
 	if w.sim == nil {
 		return
 	}
@@ -922,6 +945,7 @@ func (m *Monitors) afterStop(s *Sim) {
 	for name, n := range w.opens {
 		if w.closes[name] < n {
 			m.violate("C11", "close-what-was-opened", "receiver-not-closed", fmt.Sprintf("%s opened %d receivers, closed %d", s.Tok[name], n, w.closes[name]))
+			m.violate("C07", "receiver-closed", "receiver-not-closed", fmt.Sprintf("%s opened %d receivers, closed %d", s.Tok[name], n, w.closes[name]))
 		}
 	}
 	if w.sendCls < w.sendOpen {
@@ -1070,6 +1094,17 @@ func (m *Monitors) atQuiescence(s *Sim) {
 					fmt.Sprintf("run r%d entered run state %d at version %d; at quiescence its hook has not returned nil for that entry", w.RunOrd(r.RunID), rs, r.Meta.Version))
 			}
 			m.NonTrivial["hooked-write:"+strconv.Itoa(rs)] = true
+		}
+	}
+	// C15: "an accepted deletion request is eventually executed": events are never lost by the simulated streamer (cursors only move
+	// back, duplicates are added), the drain was fault-free and the delete function succeeded, so no run may still be RequestedDataDeleted
+	for _, rr := range w.runs {
+		if len(rr.versions) == 0 {
+			continue
+		}
+		if last := rr.versions[len(rr.versions)-1]; int(last.RunState) == 7 {
+			m.violate("C15", "request-executed", "delete-request-never-executed"+m.afterFlag(),
+				fmt.Sprintf("run r%d is still RequestedDataDeleted (version %d, object %d) although every process is idle, nothing is due and the outbox is empty: the request was never handed to the delete consumer", rr.ord, last.Meta.Version, ObjToken(last.Object)))
 		}
 	}
 }
